@@ -1070,6 +1070,10 @@ def run_c12(R, r, rep, stats, lens, mode, vcache, thorough, divergences, oracle_
     return 0
 
 
+
+def replay(path):
+    return vlib.generic_replay(path, lambda: vlib.build_harness("bgpsec", ["bgpsec_harness.c"], exclude=["rtrlib/bgpsec/bgpsec_utils.c"]), "bgpdriver")
+
 if __name__ == "__main__":
     pid = sys.argv[1]
     tier = sys.argv[2] if len(sys.argv) > 2 else "quick"
